@@ -349,6 +349,26 @@ def p7_archetype_tables(prog):
                              if pathsem.is_field_of(g['args'][0], 'archetypes::Archetypes', fil)]
                     miss = [g for g in looks if (p.lookup(g['ret']) is False if g['name'] == 'contains_key' else p.lookup(('discr', g['ret'])) == 0)]
                     miss += [t_ for t_ in table_lookups(prog, p) if t_['i'] < e['i'] and t_['miss']]
+                    if not miss:
+                        # no look-up is needed when a table made empty in this very function receives one copy of each
+                        # element of an iteration over an existing table: the identifiers are distinct because they
+                        # were distinct there
+                        raw0 = adt_field_index(prog, 'archetypes::Archetypes', 'raw_archetypes')
+                        S_ = pathsem.strip_refs
+                        tbl = S_(e['vals'][0])
+                        fresh = pathsem.is_field_of(tbl, 'archetypes::Archetypes', raw0) and isinstance(S_(tbl[1]), tuple) and S_(tbl[1])[0] == 'call' and \
+                            S_(tbl[1])[1].startswith('archetypes::Archetypes') and S_(tbl[1])[1].rsplit('::', 1)[-1] in ('new', 'with_capacity') and \
+                            not pathsem.mentions(tbl, lambda t: t[0] == 'p' and t[1] != 0 and not pathsem.mentions(tbl, lambda u: u[0] == 'call' and u[1].rsplit('::', 1)[-1] in ('len', 'capacity') and pathsem.mentions(u, lambda w: w == t)))
+                        val = S_(e['vals'][2]) if len(e['vals']) > 2 else None
+                        src_el = None
+                        if isinstance(val, tuple) and val[0] == 'call' and val[1].rsplit('::', 1)[-1] == 'clone' and val[2]:
+                            el = S_(val[2][0])
+                            if isinstance(el, tuple) and el[0] == 'elem' and any(k_ in ('iter',) for k_ in pathsem.iter_chain(el[1])[1]) and \
+                                    isinstance(S_(pathsem.iter_chain(el[1])[0]), tuple) and S_(pathsem.iter_chain(el[1])[0])[0] == 'p':
+                                src_el = el
+                        once_each = src_el is not None and len([1 for q in p.calls(lambda q: 'RawTable' in q['path'] and q['name'] in RAW_INS and len(q['vals']) > 2 and S_(q['vals'][2]) == val)]) == 1
+                        if fresh and once_each:
+                            miss = [e]
                     if not miss and 'm' not in rep:
                         rep.add('m')
                         r.viol('P7', key + '/not-on-miss-branch', f.loc(e['ln']), 'archetype inserted without first finding that no table for these identifier bytes exists: entities with one component set could be split over two tables')
@@ -558,7 +578,8 @@ def c10a_clone_from_clears(prog):
                 at = cfs[0]['i']
             else:
                 dest = S(cls[0]['ret'])
-                ins = p.calls(lambda e: e['name'] == 'insert' and e['path'].startswith('archetypes::Archetypes') and S(e['vals'][1]) == dest)
+                ins = p.calls(lambda e: (e['name'] == 'insert' and e['path'].startswith('archetypes::Archetypes') and S(e['vals'][1]) == dest) or
+                              ('RawTable' in e['path'] and e['name'] in ('insert', 'insert_entry', 'insert_no_grow') and len(e['vals']) > 2 and S(e['vals'][2]) == dest))
                 if not ins:
                     if p.ended == 'return':
                         once('clone-not-inserted', cls[0]['ln'], 'a freshly cloned archetype is not inserted into the destination')
